@@ -11,6 +11,12 @@ func init() {
 			ruleLPClass(r, nil)
 			ruleLPDrop(r)
 			ruleCHParseOps(r)
+			ruleCHParseSites2(r)
+			ruleCHBuilders(r)
+			ruleMatcherBodies(r)
+			ruleAndOr(r)
+			ruleLPOffload(r)
+			ruleLPPipe(r)
 		},
 	})
 }
